@@ -1599,6 +1599,14 @@ func zipAllInnerSubscriptions[T any](outerCtx context.Context, sources []Observa
 
 			mu.Lock()
 
+			if completed == nil {
+				// the teardown ran while the value was being delivered (the downstream side
+				// terminated): nothing is left to check
+				mu.Unlock()
+
+				return
+			}
+
 			for i := range sources {
 				if completed[i] && len(values[i]) == 0 {
 					// unlock before completing: the teardown takes the same lock
